@@ -212,21 +212,25 @@ end ChainDef
 section SegChain
 variable {V : Type} (tr : Option Nat → Nat → List Nat → Nat × V) (isB : V → Bool) (endState : Nat)
 
-/-- segment lengths determined by a list of verdicts (those before code points 1, 2, …);
+/-- segments determined by a list of verdicts (those before code points 1, 2, …): for each
+segment its length and the verdict that ended it (`none` for the last one: end of text);
 `acc` is the length of the segment being built -/
-def cuts : List V → Nat → List Nat
-  | [], acc => [acc]
-  | v :: vs, acc => if isB v then acc :: cuts vs 1 else cuts vs (acc + 1)
+def cutsV : List V → Nat → List (Nat × Option V)
+  | [], acc => [(acc, none)]
+  | v :: vs, acc => if isB v then (acc, some v) :: cutsV vs 1 else cutsV vs (acc + 1)
 
-def bump : List Nat → List Nat
+/-- segment lengths only -/
+def cuts (vs : List V) (acc : Nat) : List Nat := (cutsV isB vs acc).map (·.1)
+
+def bump : List (Nat × Option V) → List (Nat × Option V)
   | [] => []
-  | a :: as => (a + 1) :: as
+  | a :: as => (a.1 + 1, a.2) :: as
 
-theorem cuts_succ (vs : List V) (acc : Nat) : cuts isB vs (acc + 1) = bump (cuts isB vs acc) := by
+theorem cutsV_succ (vs : List V) (acc : Nat) : cutsV isB vs (acc + 1) = bump (cutsV isB vs acc) := by
   induction vs generalizing acc with
   | nil => rfl
   | cons v vs ih =>
-    simp only [cuts]
+    simp only [cutsV]
     split
     · rfl
     · exact ih (acc + 1)
@@ -234,48 +238,81 @@ theorem cuts_succ (vs : List V) (acc : Nat) : cuts isB vs (acc + 1) = bump (cuts
 theorem firstSeg_pos (rs : List Rune) (st : Option Nat) (h : rs ≠ []) : 1 ≤ (firstSeg tr isB endState rs st).1 :=
   (firstSeg_bounds tr isB endState rs st h).1
 
-/-- segment lengths of the chain from a carried (coherent) state = cuts of the run's verdicts -/
-theorem chain_counts_some : ∀ (rest : List Rune) (r : Rune) (s : Nat),
-    (chain (firstSeg tr isB endState) (r :: rest) (some s)).map (·.1) =
-      cuts isB ((runV tr (some s) (runeVals rest)).map (·.2)) 1 := by
+/-- segments of the chain from a carried (coherent) state = cuts of the run's verdicts -/
+theorem chain_cuts_some : ∀ (rest : List Rune) (r : Rune) (s : Nat),
+    (chain (firstSeg tr isB endState) (r :: rest) (some s)).map (fun x => (x.1, x.2.1)) =
+      cutsV isB ((runV tr (some s) (runeVals rest)).map (·.2)) 1 := by
   intro rest
   induction rest with
   | nil =>
     intro r s
     rw [chain_cons _ (firstSeg_pos tr isB endState)]
-    simp [firstSeg, chain_nil, runeVals, runV, cuts]
+    simp [firstSeg, chain_nil, runeVals, runV, cutsV]
   | cons r2 rest2 ih =>
     intro r s
     rw [chain_cons _ (firstSeg_pos tr isB endState)]
     have hih := ih r2 (tr (some s) r2.1 (runeVals rest2)).1
     rw [chain_cons _ (firstSeg_pos tr isB endState)] at hih
     rw [firstSeg_eq] at hih ⊢
-    simp only [startState, runeVals, List.map_cons, runV, firstCut, cuts] at hih ⊢
+    simp only [startState, runeVals, List.map_cons, runV, firstCut, cutsV] at hih ⊢
     by_cases hb : isB (tr (some s) r2.1 (List.map (fun x => x.1) rest2)).2 = true
-    · simp only [hb, ↓reduceIte, Nat.zero_add, List.drop_succ_cons, List.drop_zero, List.map_cons]
+    · simp only [hb, ↓reduceIte, Nat.zero_add, List.drop_succ_cons, List.drop_zero]
       rw [chain_cons _ (firstSeg_pos tr isB endState), firstSeg_eq]
       simp only [startState, runeVals, List.map_cons]
       exact congrArg _ hih
-    · simp only [hb, ↓reduceIte, List.drop_succ_cons, List.map_cons, Bool.false_eq_true]
-      rw [cuts_succ]
+    · simp only [hb, ↓reduceIte, List.drop_succ_cons, Bool.false_eq_true]
+      rw [cutsV_succ]
       rw [← hih]
       rfl
 
-/-- **the state is an accelerator**: the segment lengths of the chain from `-1` are the cuts of
-the single left-to-right run from `-1` (its first verdict, before the first code point, is unused) -/
-theorem chain_counts (rs : List Rune) :
-    (chain (firstSeg tr isB endState) rs none).map (·.1) =
+/-- **the state is an accelerator**: the segments of the chain from `-1` (length, and the verdict
+that ended each) are the cuts of the single left-to-right run from `-1` (whose first verdict, before
+the first code point, is unused) -/
+theorem chain_cuts (rs : List Rune) :
+    (chain (firstSeg tr isB endState) rs none).map (fun x => (x.1, x.2.1)) =
       match rs with
       | [] => []
-      | _ :: _ => cuts isB ((runV tr none (runeVals rs)).tail.map (·.2)) 1 := by
+      | _ :: _ => cutsV isB ((runV tr none (runeVals rs)).tail.map (·.2)) 1 := by
   cases rs with
   | nil => rfl
   | cons r rest =>
-    have h := chain_counts_some tr isB endState rest r (tr none r.1 (runeVals rest)).1
+    have h := chain_cuts_some tr isB endState rest r (tr none r.1 (runeVals rest)).1
     rw [chain_cons _ (firstSeg_pos tr isB endState)] at h ⊢
     rw [firstSeg_eq] at h ⊢
     simp only [startState, runeVals, List.map_cons, runV, List.tail_cons] at h ⊢
     exact h
 
+theorem chain_counts (rs : List Rune) :
+    (chain (firstSeg tr isB endState) rs none).map (·.1) =
+      match rs with
+      | [] => []
+      | _ :: _ => cuts isB ((runV tr none (runeVals rs)).tail.map (·.2)) 1 := by
+  have h := congrArg (List.map (·.1)) (chain_cuts tr isB endState rs)
+  simp only [List.map_map] at h
+  cases rs with
+  | nil => rfl
+  | cons r rest => exact h
+
 end SegChain
+
+/-- reading the verdicts through a map `g` changes neither the states nor the run's shape -/
+theorem runV_map {σ V W : Type} (tr : Option σ → Nat → List Nat → σ × V) (g : V → W) (st : Option σ) (l : List Nat) :
+    runV (fun st r rest => ((tr st r rest).1, g (tr st r rest).2)) st l = (runV tr st l).map (fun t => (t.1, g t.2)) := by
+  induction l generalizing st with
+  | nil => rfl
+  | cons r rest ih => simp only [runV, List.map_cons]; rw [ih]
+
+theorem cutsV_map {V W : Type} (isB : V → Bool) (isB' : W → Bool) (g : V → W) (h : ∀ v, isB v = isB' (g v)) :
+    ∀ (vs : List V) (acc : Nat),
+      (cutsV isB vs acc).map (fun x => (x.1, x.2.map g)) = cutsV isB' (vs.map g) acc := by
+  intro vs
+  induction vs with
+  | nil => intro acc; rfl
+  | cons v vs ih =>
+    intro acc
+    simp only [cutsV, List.map_cons, ← h v]
+    split
+    · simp only [List.map_cons, Option.map_some, ih]
+    · exact ih (acc + 1)
+
 end Uniseg.Chain
